@@ -147,6 +147,38 @@ def resolve_item(d, it):
     return 'q:%s:%s:%s' % (k, ns, enc(name))
 
 
+def wop_line(wop):
+    """protocol line of a two-sheet operation (see lean/Drv/C15.lean)"""
+    k = wop[0]
+    if k == 'w':
+        return 'w %d %s' % (wop[1], op_line(wop[2]))
+    if k == 'wgrab':
+        return 'wgrab %d %d %s' % (wop[1], wop[2], ssels_word(wop[3]))
+    if k == 'wshare':
+        return 'wshare %d %s %d' % (wop[1], idx_word(wop[2]), wop[3])
+    if k == 'wobjsel':
+        return 'wobjsel %s' % ssels_word(wop[1])
+    raise ValueError(k)
+
+
+def wop_from_json(o):
+    def item(i):
+        if i[0] == 'q':
+            ps = i[2] if isinstance(i[2], str) else ('P', i[2][1])
+            return ('q', i[1], ps, i[3])
+        return tuple(i)
+
+    def sels(x):
+        return [[item(i) for i in s] for s in x]
+    if o[0] == 'w':
+        return ('w', o[1], from_json_op(o[2]))
+    if o[0] == 'wgrab':
+        return ('wgrab', o[1], o[2], sels(o[3]))
+    if o[0] == 'wobjsel':
+        return ('wobjsel', sels(o[1]))
+    return tuple(o)
+
+
 def op_line(op):
     k = op[0]
     if k == 'parse':
@@ -510,6 +542,107 @@ class HistoryGen:
             sels = gen_sels(rng, [p for p in d if p], bad=0)
             return ('insobj', sels, tuple(d.items()), self.gen_idx(n), int(rng.random() < 0.4))
         return gen_start(rng)
+
+
+class WorldGen:
+    """operations of one two-sheet history: two parsed start sheets, then a style rule object is taken from one of
+    them and followed while it is inserted into the other sheet, deleted from either, re-targeted, and while
+    namespace operations run on both sheets"""
+    SIDE_KINDS = ('insns', 'insnstext', 'setns', 'delns', 'delrule', 'setprefix', 'setsel', 'insstyle', 'setnstext')
+
+    def __init__(self, rng):
+        self.rng = rng
+        self.n = rng.choice([3, 4, 5, 6, 8, 10])
+        self.i = -1
+        self.kind = 'world'
+        self.w = None
+
+    def bind(self, w):
+        self.w = w
+
+    def __iter__(self):
+        return self
+
+    def __next__(self):
+        self.i += 1
+        if self.i < 2:
+            st = gen_start(self.rng)
+            src = [r for r in st[2] if r != ('other', 'variables')]
+            if not any(r[0] == 'style' for r in src):
+                src.append(('style', gen_sels(self.rng, [r[1] for r in src if r[0] == 'ns' and r[1]], bad=0)))
+            return ('w', self.i, ('parse', (), src))
+        if self.i > self.n + 1:
+            raise StopIteration
+        return self.gen_op()
+
+    def side_op(self, side):
+        g = HistoryGen(self.rng)
+        g.bind(self.w.s[side])
+        for _ in range(20):
+            op = g.gen_op()
+            if op[0] in self.SIDE_KINDS:
+                return ('w', side, op)
+        return ('w', side, ('setns', 'p', 'u1'))
+
+    def gen_op(self):
+        rng, w = self.rng, self.w
+        sheets = [w.s[0].sheet, w.s[1].sheet]
+        decl = [list(dict(s.namespaces.items())) for s in sheets]
+        if w.obj is None:
+            cands = [(sd, i) for sd in (0, 1) for i, r in enumerate(sheets[sd].cssRules) if r.type == r.STYLE_RULE]
+            if cands and rng.random() < 0.85:
+                sd, i = rng.choice(cands)
+                return ('wgrab', sd, i, gen_sels(rng, pick_prefixes(rng, decl[sd], 0.03), bad=0.01))
+            sd = rng.randrange(2)
+            return ('w', sd, ('insstyle', gen_sels(rng, pick_prefixes(rng, decl[sd], 0.03), bad=0), None, 1))
+        obj = w.obj
+        where = [[i for i, x in enumerate(s.cssRules) if x is obj] for s in sheets]
+        r = rng.random()
+        if r < 0.25:
+            to = [sd for sd in (0, 1) if not where[sd]]
+            if to:
+                sd = rng.choice(to)
+                n = len(sheets[sd].cssRules)
+                x = rng.random()
+                idx = None if x < 0.4 else (n + 1 if x < 0.45 else rng.randint(0, n))
+                return ('wshare', sd, idx, int(rng.random() < 0.4))
+        if r < 0.40:
+            sd = rng.randrange(2)
+            return ('wobjsel', gen_sels(rng, pick_prefixes(rng, decl[sd], 0.03), bad=0.02))
+        if r < 0.58:
+            sides = [sd for sd in (0, 1) if where[sd]]
+            if sides:
+                sd = rng.choice(sides)
+                i = where[sd][0]
+                if rng.random() < 0.5:
+                    return ('w', sd, ('delrule', i))
+                return ('w', sd, ('setsel', i, gen_sels(rng, pick_prefixes(rng, decl[rng.randrange(2)], 0.03), bad=0.02)))
+        return self.side_op(rng.randrange(2))
+
+
+def world_boundary_histories():
+    P = lambda p: ('P', p)
+    ns = lambda p, u, c='000': ('ns', p, u, c)
+    st = lambda *sels: ('style', [list(s) for s in sels])
+    A = ('w', 0, ('parse', (), [ns('p', 'u1'), st([T(P('p'), 'a')])]))
+    B = ('w', 1, ('parse', (), [ns('q', 'u1'), ns('r', 'u2'), st([T(P('r'), 'b')])]))
+    g = ('wgrab', 0, 1, [[T(P('p'), 'a')]])
+    h = []
+    # one object in two lists: follows the sheet it was inserted into last
+    h.append([A, B, g, ('wshare', 1, None, 1), ('wobjsel', [[T(P('r'), 'c')]]), ('w', 0, ('delns', 'p')),
+              ('w', 1, ('setns', 'z', 'u2')), ('w', 0, ('delrule', 0)), ('w', 1, ('setns', 'y', 'u2')),
+              ('wobjsel', [[T('N', 'c')]]), ('wshare', 0, None, 1)])
+    # the proper move: out of A first, then into B
+    h.append([A, B, g, ('w', 0, ('delrule', 1)), ('wshare', 1, 1, 0), ('wshare', 1, 2, 0), ('w', 1, ('setns', 'z', 'u1')),
+              ('w', 1, ('delns', 'z')), ('w', 0, ('delns', 'p'))])
+    # positions: rules inserted and removed in front of the object, in both lists
+    h.append([A, B, g, ('wshare', 1, 2, 0), ('w', 1, ('insstyle', [[T('N', 'x')]], 2, 0)),
+              ('w', 0, ('insstyle', [[T('N', 'y')]], 1, 0)), ('w', 1, ('insns', 'k', 'u3', 0, 0)),
+              ('w', 1, ('delrule', 3)), ('w', 0, ('setsel', 2, [[T(P('q'), 'd')]])), ('w', 1, ('delrule', 3)),
+              ('wobjsel', [[T(P('p'), 'e')]])])
+    # the target sheet does not declare the namespace at all
+    h.append([A, ('w', 1, ('parse', (), [st([T('N', 'b')])])), g, ('wshare', 1, None, 1)])
+    return h
 
 
 # ------------------------------------------------------------------------------------------------
